@@ -92,15 +92,22 @@ fn baseline(user: bool, matrix: Matrix) -> Case {
         // read like its headword, the second is read like its key
         Row::new("ab", 1, 1, 50, P_NOUN).headword("ＡＢ").reading("ＡＢ"),
         Row::new("ab", 1, 1, 60, P_NOUN).reading("ab"),
+        // ... and a third one that an inline reference cannot tell from the second: the first listed wins
+        Row::new("ab", 1, 1, 70, P_NOUN).reading("ab").norm("AB3"),
         Row::new("さ", 1, 1, 700, P_NOUN).reading("サ"),
         Row::new("ん", 1, 0, 900, P_PROPN).reading("ン").norm("む").synonyms("7"),
     ];
     let mut system = system;
     if user {
         // the system dictionary of the user case has no probe row
-        system.remove(9);
+        system.remove(10);
     }
-    let user_rows = vec![Row::new("府", 1, 1, 2914, P_NOUN).reading("フ"), Row::new("す", 0, 0, 10, P_NOUN).reading("ス"), Row::new("を", 1, 1, 20, P_PROPN).reading("ヲ").norm("お").splits("C", "0/U0", "*")];
+    let user_rows = vec![
+        Row::new("府", 1, 1, 2914, P_NOUN).reading("フ"),
+        Row::new("府の", 1, 1, 3000, P_NOUN).reading("フノ").dic_form("U0"),
+        Row::new("す", 0, 0, 10, P_NOUN).reading("ス"),
+        Row::new("を", 1, 1, 20, P_PROPN).reading("ヲ").norm("お").splits("C", "0/U0", "*"),
+    ];
     let mut c = Case { system, user: if user { user_rows } else { vec![] }, probe_in_user: user, matrix };
     let _ = c.probe();
     c
@@ -279,9 +286,9 @@ pub struct RoundTrip {
 }
 
 /// expected resolved word id of a split unit, as reported after loading
-fn resolve_unit(case: &Case, in_user: bool, unit: &str) -> Option<u32> {
+fn resolve_unit(case: &Case, in_user: bool, unit: &str, user_no: u32) -> Option<u32> {
     if unit.starts_with('U') && unit[1..].chars().all(|c| c.is_ascii_digit()) {
-        return unit[1..].parse::<u32>().ok().map(|n| (1u32 << 28) | n);
+        return unit[1..].parse::<u32>().ok().map(|n| (user_no << 28) | n);
     }
     if unit.chars().all(|c| c.is_ascii_digit()) && !unit.is_empty() {
         return unit.parse::<u32>().ok();
@@ -306,7 +313,7 @@ fn resolve_unit(case: &Case, in_user: bool, unit: &str) -> Option<u32> {
         None
     };
     if in_user {
-        find(&case.user, 1).or_else(|| find(&case.system, 0))
+        find(&case.user, user_no).or_else(|| find(&case.system, 0))
     } else {
         find(&case.system, 0)
     }
@@ -339,7 +346,8 @@ impl RoundTrip {
         c
     }
 
-    fn verify(&self, case: &Case, dict: &JapaneseDictionary, ctx: &str, o: &mut Outcome) {
+    /// `user_no`: the number under which the user dictionary of the case was loaded
+    fn verify(&self, case: &Case, dict: &JapaneseDictionary, ctx: &str, o: &mut Outcome, user_no: u32) {
         let lex = dict.lexicon();
         let g = dict.grammar();
         // connection matrix
@@ -356,7 +364,7 @@ impl RoundTrip {
                 }
             }
         }
-        for (dic, rows) in [(0u32, &case.system), (1u32, &case.user)] {
+        for (dic, rows) in [(0u32, &case.system), (user_no, &case.user)] {
             for (i, row) in rows.iter().enumerate() {
                 let wid = WordId::new(dic as u8, i as u32);
                 let c2 = format!("{} word ({}, {}) {:?}", ctx, dic, i, row.surface.chars().take(12).collect::<String>());
@@ -396,8 +404,8 @@ impl RoundTrip {
                 let exp_df = if row.dic_form == "*" {
                     headword.clone()
                 } else {
-                    let (d2, idx) = if row.dic_form.starts_with('U') { (1u32, row.dic_form[1..].parse::<usize>().unwrap_or(0)) } else { (0u32, row.dic_form.parse::<usize>().unwrap_or(0)) };
-                    let rows2 = if d2 == 1 { &case.user } else { &case.system };
+                    let (d2, idx) = if row.dic_form.starts_with('U') { (user_no, row.dic_form[1..].parse::<usize>().unwrap_or(0)) } else { (0u32, row.dic_form.parse::<usize>().unwrap_or(0)) };
+                    let rows2 = if d2 != 0 { &case.user } else { &case.system };
                     rows2.get(idx).map(|r| ref_unescape(&r.headword)).unwrap_or_default()
                 };
                 if wi.dictionary_form() != exp_df {
@@ -405,7 +413,7 @@ impl RoundTrip {
                 }
                 // splits and word structure
                 for (name, decl, obs) in [("A split", &row.split_a, wi.a_unit_split()), ("B split", &row.split_b, wi.b_unit_split()), ("word structure", &row.word_structure, wi.word_structure())] {
-                    let exp: Vec<Option<u32>> = if decl == "*" || decl.is_empty() { vec![] } else { decl.split('/').map(|u| resolve_unit(case, dic == 1, u)).collect() };
+                    let exp: Vec<Option<u32>> = if decl == "*" || decl.is_empty() { vec![] } else { decl.split('/').map(|u| resolve_unit(case, dic != 0, u, user_no)).collect() };
                     let obs: Vec<Option<u32>> = obs.iter().map(|w| Some(w.as_raw())).collect();
                     if exp != obs {
                         let sh = |v: &Vec<Option<u32>>| format!("{:?}{}", v.iter().take(6).collect::<Vec<_>>(), if v.len() > 6 { format!("…({})", v.len()) } else { String::new() });
@@ -509,13 +517,43 @@ impl Space for RoundTrip {
                     let c2 = format!("{} alignment offset {}", ctx, misalign);
                     match catch(|| {
                         let mut o2 = Outcome::new();
-                        self.verify(&case, &dict, &c2, &mut o2);
+                        self.verify(&case, &dict, &c2, &mut o2, 1);
                         o2
                     }) {
                         Ok(o2) => o.failures.extend(o2.failures),
                         Err(p) => o.fail(Failure::panic(&format!("{} reading back", c2), &p)),
                     }
                     // the loaded dictionary is leaked together with its buffers (bounded: one per state)
+                    std::mem::forget(dict);
+                }
+            }
+        }
+        // the same user dictionary loaded as the SECOND user dictionary (behind a small one that brings
+        // a part of speech of its own): every reference inside it must now carry dictionary number 2
+        if user && !users.is_empty() {
+            o.evaluations += 1;
+            let filler_csv = rows_to_csv(&[
+                Row::new("ぴ", 0, 0, 77, ["被子植物門", "双子葉植物綱", "ムクロジ目", "ミカン科", "ミカン属", "スダチ"]).reading("ピ"),
+                Row::new("ぴぴ", 0, 0, 78, P_NOUN).reading("ピピ").dic_form("U0").splits("C", "U0/U0", "U0/0"),
+            ]);
+            let r = catch(|| -> Result<JapaneseDictionary, String> {
+                let base = load(&dir, &bare_plugins(&pos_of(P_NOUN)), sys.clone(), vec![])?;
+                let filler = compile_user(&base, &filler_csv)?;
+                load_aligned(&dir, &sys, &[filler, users[0].clone()], 0)
+            });
+            match r {
+                Err(p) => o.fail(Failure::panic(&format!("{} loading as second user dictionary", ctx), &p)),
+                Ok(Err(e)) => o.fail(Failure::new("load-error", format!("{} as second user dictionary: {}", ctx, e))),
+                Ok(Ok(dict)) => {
+                    let c2 = format!("{} loaded as user dictionary 2", ctx);
+                    match catch(|| {
+                        let mut o2 = Outcome::new();
+                        self.verify(&case, &dict, &c2, &mut o2, 2);
+                        o2
+                    }) {
+                        Ok(o2) => o.failures.extend(o2.failures),
+                        Err(p) => o.fail(Failure::panic(&format!("{} reading back", c2), &p)),
+                    }
                     std::mem::forget(dict);
                 }
             }
